@@ -3,7 +3,7 @@
     from helpers.rs (coq/gen/Helpers.v); memfrob / strcmp are modelled on byte strings and sqrti with
     Flocq's binary64 (both tied to the code by the correspondence).  Proofs: theories/HelperProofs.v. *)
 From Coq Require Import ZArith List Bool.
-From RbpfV Require Import MachInt HelperProofs Sqrt64.
+From RbpfV Require Import MachInt HelperProofs Sqrt64 Sqrt64Proofs.
 From RbpfV.gen Require Import Helpers.
 Import ListNotations.
 Open Scope Z_scope.
@@ -33,9 +33,13 @@ Theorem C19_strcmp_zero_iff : forall a b, In 0 a -> In 0 b -> Forall (fun x => 0
   (strcmp_model a b = 0 <-> cstr a = cstr b).
 Proof. exact strcmp_zero_iff. Qed.
 
-(** sqrti: the statement "exact integer square root below 2^52" is NOT proved here (partial):
-    the Flocq model [sqrti_model] is only compared with the implementation and with Z.sqrt on the
-    correspondence grid.  What is checked by computation: *)
+(** sqrti: `(x as f64).sqrt() as u64`, modelled with Flocq's binary64 ([sqrti_model], compared with the implementation on the
+    correspondence grid), is the exact integer square root for every argument below 2^52 (theories/Sqrt64Proofs.v; uses the
+    standard library's classical axioms for the real numbers) *)
+Theorem C19_sqrti_exact : forall x, 0 <= x < 2 ^ 52 -> sqrti_model x = Z.sqrt x.
+Proof. exact sqrti_exact. Qed.
+
+(** above 2^52 the result is the truncated rounded root, not always the integer root; samples by computation: *)
 Example C19_sqrti_samples :
   map sqrti_model [0; 1; 2; 3; 4; 15; 16; 17; 2 ^ 52 - 1; 2 ^ 64 - 1]
   = [0; 1; 1; 1; 2; 3; 4; 4; 67108863; 4294967296].
@@ -47,3 +51,4 @@ Print Assumptions C19_rand_range.
 Print Assumptions C19_memfrob_involutive.
 Print Assumptions C19_strcmp_zero_iff.
 Print Assumptions C19_sqrti_samples.
+Print Assumptions C19_sqrti_exact.
